@@ -75,6 +75,14 @@ func replay(file string) int {
 		fmt.Fprintln(os.Stderr, err)
 		return 2
 	}
+	var pv struct {
+		Engine, Property, Clause, Input, Got string
+		GoTest string `json:"go_test"`
+	}
+	if json.Unmarshal(b, &pv) == nil && pv.Engine == "pure" {
+		fmt.Printf("pure-function violation of %s\n  clause: %s\n  input:  %s\n  got:    %s\nre-run `./check %s quick` to re-evaluate this input on the current tree; stand-alone test:\n%s\n", pv.Property, pv.Clause, pv.Input, pv.Got, pv.Property, pv.GoTest)
+		return 0
+	}
 	var v explore.Violation
 	if err := json.Unmarshal(b, &v); err != nil {
 		fmt.Fprintln(os.Stderr, err)
